@@ -1,6 +1,9 @@
 """C20 - value summaries: sorted-delete-list typestate, complement guards, boolean-expression-to-guard table,
 cross product and fast path of apply_bin_op, coalescing with current guards."""
 from ..tree import *  # noqa
+from .. import norm as norm_
+from .. import iterdesc
+from .. import boolpred as bp
 from ..flow import Index
 from ..tables import *  # noqa
 from .c02 import binding_of_pat
@@ -57,8 +60,51 @@ def delete_typestate(ctx, c):
     ctx.floor("R20.1", "delete_entries call sites", n_calls, 1)
     # the callee really is the single forward pass the precondition is derived from
     g = fnv(ctx, V + "delete_entries")
-    ok = anyshow(g["body"], "delete_iter.peek().cloned()==Option::Some(current_index)") and anyshow(g["body"], "entries.retain(")
+    ok = forward_pass(g)
     ctx.inst("R20.1", "delete_entries:forward-pass", ok, g["span"], "delete_entries is no longer the single forward pass comparing the next list element with the running index (re-review the precondition)", nontrivial=False)
+
+
+def forward_pass(g):
+    """delete_entries keeps an element unless its running index equals the NEXT element of the (peekable) delete list:
+    `it.peek().cloned() == Some(i)` followed by `it.next()`, or `it.next_if_eq(&i).is_none()`; the index is incremented once per element"""
+    gx = Index(g["body"])
+    gdefs = local_defs(g)
+    gp = param_ids(g) + [None, None]
+    p_list, p_entries = gp[0], gp[1]
+    retains = [n for n in gx.nodes if n.get("k") == "mcall" and n["name"] == "retain" and is_local(n["recv"], p_entries)]
+    if len(retains) != 1:
+        return False
+    cl = resolve(retains[0]["args"][0])
+    if cl.get("k") != "closure":
+        return False
+    incs = [n for n in walk(cl["body"]) if n.get("k") == "assignop" and n["op"] in ("+=", "+") and peel(n["l"]).get("k") == "local" and peel(n["r"]).get("v") == 1]
+    if len(incs) != 1 or len(gx.regions[id(incs[0])]) != len(gx.regions[id(cl)]) + 1:
+        return False
+    counter = peel(incs[0]["l"])["id"]
+
+    def is_index(e):
+        """the value of the running index before this element's increment"""
+        e = peel(e)
+        if e.get("k") != "local":
+            return False
+        if e["id"] == counter:
+            return gx.precedes(e, incs[0])
+        init = simple_let_init(gdefs, e["id"])
+        return init is not None and is_local(init, counter) and gx.precedes(gdefs[e["id"]][1], incs[0])
+
+    def from_list(e):
+        b_, ms_ = chain(norm_.value_source(gx, gdefs, e))
+        return is_local(b_, p_list) and [m_[0] for m_ in ms_] == ["into_iter", "peekable"]
+    for n in walk(cl["body"]):
+        if n.get("k") == "mcall" and n["name"] == "next_if_eq" and from_list(n["recv"]) and is_index(n["args"][0]):
+            return True
+        if n.get("k") == "binary" and n["op"] == "==":
+            for a_, b_ in ((n["l"], n["r"]), (n["r"], n["l"])):
+                ab, ams = chain(a_)
+                bb = peel(b_)
+                if [m_[0] for m_ in ams][:1] == ["peek"] and from_list(ab) and bb.get("k") == "ctor" and callee(bb).endswith("Option::Some") and is_index(bb["args"][0]):
+                    return any(x.get("k") == "mcall" and x["name"] == "next" and from_list(x["recv"]) for x in walk(cl["body"]))
+    return False
 
 
 def typestate(lid, call, ix, defs):
@@ -86,7 +132,8 @@ def typestate(lid, call, ix, defs):
             a = peel(p["args"][0])
             lb = binding_of_pat(loop["pat"]) if loop is not None else None
             rng = loop is not None and (show(loop["iter"]).startswith("range::Range") or "RangeInclusive::new" in show(loop["iter"]) or (chain(loop["iter"])[1] and [m[0] for m in chain(loop["iter"])[1]][-1:] == ["enumerate"]))
-            if not (lb and a.get("k") == "local" and a["id"] == lb[1] and show(loop["iter"]).startswith("range::Range")):
+            from .c02 import range_of
+            if not (lb and a.get("k") == "local" and a["id"] == lb[1] and loop is not None and range_of(loop["iter"], defs) is not None):
                 ok = False
                 why = "pushes `%s`, which is not the loop index of an ascending range loop" % show(p["args"][0])
             else:
@@ -98,50 +145,59 @@ def typestate(lid, call, ix, defs):
 
 
 def complement(ctx):
-    f = fnv(ctx, V + "ValueSummary::<V>::apply_ite") if ctx.fn_opt("patronus_dse", V + "ValueSummary::<V>::apply_ite") else None
-    if f is None:
-        cands = [p for p in ctx.facts.lib("patronus_dse").fns if p.endswith("::apply_ite")]
-        f = ctx.fn("patronus_dse", cands[0] if cands else V + "ValueSummary::apply_ite")
+    cands = [p for p in ctx.facts.lib("patronus_dse").fns if p.endswith("::apply_ite")]
+    f = ctx.fn("patronus_dse", cands[0] if cands else V + "ValueSummary::apply_ite")
     ix = Index(f["body"])
     defs = local_defs(f)
-    P = {name: i for p in f["params"] for name, i in pat_bindings(p)}
-    # condition local and its complement
+    D = iterdesc.Desc(ix, defs)
+    fp_ = param_ids(f) + [None] * 5                # apply_ite(ec, gc, cond, tru, fals)
+    p_cond, p_tru, p_fals = fp_[2], fp_[3], fp_[4]
+    # the condition guard c = cond.to_guard(..).0 and its complement GuardCtx::not(c)
     tru_cond = None
-    for i, d in defs.items():
-        if d[0] == "let" and d[2].get("k") == "ptuple" and "init" in d[1] and "to_guard" in show(d[1]["init"]):
-            b = binding_of_pat(d[2]["subs"][0])
-            tru_cond = b[1] if b else None
-    fals_cond = None
-    for i, d in defs.items():
-        if d[0] == "let" and d[2].get("k") == "pbind" and "init" in d[1]:
-            init = peel(d[1]["init"])
-            if init.get("k") == "mcall" and callee(init) == V + "GuardCtx::not" and is_local(init["args"][0], tru_cond):
-                fals_cond = i
-    ctx.inst("R20.2", "apply_ite:complement-defined", tru_cond is not None and fals_cond is not None, f["span"], "apply_ite must derive the else-guard as GuardCtx::not of the very condition guard it uses for the then-side")
+    for i_, d in defs.items():
+        if d[0] == "let" and d[2].get("k") == "ptuple" and "init" in d[1]:
+            b_, ms_ = chain(d[1]["init"])
+            if [m_[0] for m_ in ms_] == ["to_guard"] and is_local(b_, p_cond):
+                b = binding_of_pat(d[2]["subs"][0])
+                tru_cond = b[1] if b else None
+
+    def cond_role(e):
+        e = resolve(e)
+        if tru_cond is not None and is_local(e, tru_cond):
+            return "c"
+        if e.get("k") == "mcall" and callee(e) == V + "GuardCtx::not" and tru_cond is not None and is_local(resolve(e["args"][0]), tru_cond):
+            return "not c"
+        return None
+    has_not = any(n.get("k") == "mcall" and callee(n) == V + "GuardCtx::not" and tru_cond is not None and is_local(resolve(n["args"][0]), tru_cond) for n in ix.nodes)
+    ctx.inst("R20.2", "apply_ite:complement-defined", tru_cond is not None and has_not, f["span"], "apply_ite must derive the else-guard as GuardCtx::not of the very condition guard it uses for the then-side")
     seen = {}
-    for loop in [n for n in ix.nodes if n.get("k") == "for"]:
-        b, ms = chain(loop["iter"])
-        fp = field_path(b)
-        if not (fp and fp[2] == ["entries"] and fp[1] in (P.get("tru"), P.get("fals"))):
+    ands = [n for n in ix.nodes if n.get("k") == "mcall" and callee(n) == V + "GuardCtx::and"]
+    for a in ands:
+        it = norm_.iter_context(ix, a)
+        if it is None or it["kind"] not in ("for", "closure"):
             continue
-        side = "tru" if fp[1] == P.get("tru") else "fals"
-        eb = binding_of_pat(loop["pat"])
-        ands = [x for x in walk(loop["body"]) if x.get("k") == "mcall" and callee(x) == V + "GuardCtx::and"]
-        ok = len(ands) == 1 and eb is not None
-        if ok:
-            a0, a1 = ands[0]["args"]
-            want = tru_cond if side == "tru" else fals_cond
-            sides = [a0, a1]
-            has_entry = any(field_path(s_) and field_path(s_)[1] == eb[1] and field_path(s_)[2] == ["guard"] for s_ in sides)
-            has_cond = any(is_local(s_, want) for s_ in sides)
-            ok = has_entry and has_cond
-            # the value is carried over unchanged
-            st = [x for x in walk(loop["body"]) if x.get("k") == "struct" and x["path"].endswith("::Entry")]
-            ok = ok and len(st) == 1 and show({f_["name"]: f_ for f_ in st[0]["fields"]}["value"]["e"]).replace(" ", "") == "%s.value" % eb[0]
-            ok = ok and len(ix.regions[id(ands[0])]) == len(ix.regions[id(loop)]) + 1 and [m[0] for m in ms] == ["into_iter"]
+        roles = [cond_role(x) for x in a["args"]]
+        descs = [D.of(x) for x in a["args"]]
+        side = None
+        for d_ in descs:
+            if d_[0] == "field" and d_[2] == "guard" and d_[1][0] == "elem" and d_[1][1].endswith(".entries"):
+                owner = d_[1][1][:-len(".entries")]
+                side = {"tru": "tru", "fals": "fals"}.get(owner)
+                elem = d_[1]
+        if side is None:
+            continue
+        want = "c" if side == "tru" else "not c"
+        ok = want in roles
+        # the value is carried over unchanged into the new entry, for every entry
+        st = [x for x in ix.nodes if x.get("k") == "struct" and x["path"].endswith("::Entry") and any(y is a for y in walk(x))]
+        ok = ok and len(st) == 1 and D.of({f_["name"]: f_ for f_ in st[0]["fields"]}["value"]["e"]) == ("field", elem, "value")
+        alts, filtered = D.source(it["src"])
+        ok = ok and not filtered and len(ix.regions[id(a)]) == len(ix.regions[id(it["node"])]) + 1 and not any(x.get("k") in ("continue", "break") for x in walk(it["body"]))
+        if side in seen:
+            ok = False
         seen[side] = ok
-        ctx.inst("R20.2", "apply_ite:%s-entries" % side, ok, loop["sp"], "every %s entry must be kept with guard GuardCtx::and(entry.guard, %s) and its own value" % (side, "cond" if side == "tru" else "not(cond)"),
-                 sample=show(ands[0])[:80] if ands else None)
+        ctx.inst("R20.2", "apply_ite:%s-entries" % side, ok, a["sp"], "every %s entry must be kept with guard GuardCtx::and(entry.guard, %s) and its own value" % (side, "cond" if side == "tru" else "not(cond)"),
+                 sample=show(a)[:80])
     for side in ("tru", "fals"):
         if side not in seen:
             ctx.violation("R20.2", "apply_ite:%s-entries" % side, f["span"], "no loop re-guards the %s entries" % side)
@@ -149,37 +205,71 @@ def complement(ctx):
     cands = [p for p in ctx.facts.lib("patronus_dse").fns if p.endswith("::import_into_guard")]
     g = ctx.fn("patronus_dse", cands[0] if cands else V + "import_into_guard")
     gdefs = local_defs(g)
+    gx = Index(g["body"])
     vg = None
-    for i, d in gdefs.items():
-        if d[0] == "let" and d[2].get("k") == "ptuple" and "to_guard" in show(d[1].get("init", {})):
+    for i_, d in gdefs.items():
+        if d[0] == "let" and d[2].get("k") == "ptuple" and "init" in d[1] and [m_[0] for m_ in chain(d[1]["init"])[1]] == ["to_guard"]:
             b = binding_of_pat(d[2]["subs"][0])
             vg = b[1] if b else None
-    pairs = []
-    for n in walk(g["body"]):
+
+    def atom_fn(n):
+        if n.get("k") == "mcall" and n["name"] in ("is_true", "is_false") and callee(n) and callee(n).startswith(V + "GuardCtx::") and vg is not None and is_local(resolve(n["args"][0]), vg):
+            return "T" if n["name"] == "is_true" else "F"
+        return None
+
+    def value_kind(e):
+        e = norm_.tail_value(e)
+        if e.get("k") == "call" and (callee(e) or "").endswith("::true_value"):
+            return "true_value"
+        if e.get("k") == "call" and (callee(e) or "").endswith("::false_value"):
+            return "false_value"
+        return "?" + show(e)[:20]
+    rows = []     # (guard kind, value kind, condition formula)
+    unknown = False
+    for n in gx.nodes:
         if n.get("k") == "struct" and n["path"].endswith("::Entry"):
             fs = {f_["name"]: f_["e"] for f_ in n["fields"]}
-            gd, val = peel(fs["guard"]), show(fs["value"]).replace(" ", "")
+            gd = resolve(fs["guard"])
             kind = "?"
-            if gd.get("k") == "local" and gd["id"] == vg:
+            if vg is not None and is_local(gd, vg):
                 kind = "g"
-            elif gd.get("k") == "mcall" and callee(gd) == V + "GuardCtx::not" and is_local(gd["args"][0], vg):
+            elif gd.get("k") == "mcall" and callee(gd) == V + "GuardCtx::not" and vg is not None and is_local(resolve(gd["args"][0]), vg):
                 kind = "not g"
             elif gd.get("k") == "mcall" and gd["name"] == "get_true":
                 kind = "true"
-            pairs.append((kind, "true_value" if "true_value" in val else "false_value" if "false_value" in val else val))
-    two = [p for p in pairs if p[0] in ("g", "not g")]
-    ctx.inst("R20.2", "import_into_guard:complementary-pair", sorted(two) == [("g", "true_value"), ("not g", "false_value")], g["span"],
+            base = ("const", True)
+            try:
+                for c_, pol in norm_.path_conditions(gx, n):
+                    if c_.get("k") == "letexpr":
+                        continue
+                    try:
+                        x = bp.extract(c_, {}, gdefs, None, 0, None, atom_fn)
+                    except bp.Opaque:
+                        # a condition that does not involve the guard (e.g. `others.is_empty()`) does not select between the cases
+                        if any(y.get("k") == "local" and vg is not None and canon(y["id"]) == canon(vg) for y in walk(c_)):
+                            raise
+                        continue
+                    base = ("and", base, x if pol else ("not", x))
+                for conds, v in norm_.value_alternatives(fs["value"]):
+                    fm = base
+                    for c_, pol in conds:
+                        x = bp.extract(c_, {}, gdefs, None, 0, None, atom_fn)
+                        fm = ("and", fm, x if pol else ("not", x))
+                    rows.append((kind, value_kind(v), fm))
+            except bp.Opaque:
+                unknown = True
+    pairs = sorted({(k_, v_) for k_, v_, _ in rows})
+    two = sorted({(k_, v_) for k_, v_, _ in rows if k_ in ("g", "not g")})
+    ctx.inst("R20.2", "import_into_guard:complementary-pair", two == [("g", "true_value"), ("not g", "false_value")], g["span"],
              "import_into_guard must produce exactly {guard: g, value: true} and {guard: not(g), value: false}: %s" % pairs, sample=pairs)
-    # trivial cases: is_true(g) -> single true entry, is_false(g) -> single false entry
+    # trivial cases: is_true(g) -> the single entry {true, true_value}; is_false(g) -> {true, false_value}; neither -> the complementary pair
     triv = {}
-    gx = Index(g["body"])
-    for n in gx.nodes:
-        if n.get("k") == "if":
-            cnd = peel(n["cond"])
-            if cnd.get("k") == "mcall" and cnd["name"] in ("is_true", "is_false") and is_local(cnd["args"][0], vg):
-                vals = [show({f_["name"]: f_ for f_ in x["fields"]}["value"]["e"]) for x in walk(n["then"]) if x.get("k") == "struct" and x["path"].endswith("::Entry")]
-                triv[cnd["name"]] = ["true_value" if "true_value" in v else "false_value" for v in vals]
-    ctx.inst("R20.2", "import_into_guard:trivial-cases", triv == {"is_true": ["true_value"], "is_false": ["false_value"]}, g["span"], "a guard that is constantly true/false must yield the single value true/false: %s" % triv, sample=triv)
+    okt = not unknown
+    for T, F, want in ((True, False, {("true", "true_value")}), (False, True, {("true", "false_value")}), (False, False, {("g", "true_value"), ("not g", "false_value")})):
+        got = {(k_, v_) for k_, v_, fm in rows if bp.ev(fm, {"T": T, "F": F})}
+        triv["is_true=%d,is_false=%d" % (T, F)] = sorted(got)
+        okt = okt and got == want
+    ctx.inst("R20.2", "import_into_guard:trivial-cases", okt, g["span"], "a guard that is constantly true/false must yield the single value true/false, any other guard the complementary pair: %s" % triv, sample=triv)
 
 
 GUARD_ORACLE = {"BVNot": ("not", [0]), "BVAnd": ("and", [0, 1]), "BVOr": ("or", [0, 1]), "BVXor": ("xor", [0, 1]), "BVImplies": ("implies", [0, 1])}
@@ -246,79 +336,218 @@ def binop(ctx):
     f = ctx.fn("patronus_dse", cands[0] if cands else V + "apply_bin_op")
     ix = Index(f["body"])
     defs = local_defs(f)
-    body_stmts = stmts_of(f["body"])
-    # locals a, b (the entry vectors)
+    D = iterdesc.Desc(ix, defs)
+    fp_ = param_ids(f) + [None] * 5               # apply_bin_op(ec, gc, op, a, b)
+    p_op, p_a, p_b = fp_[2], fp_[3], fp_[4]
+    # the operand entry vectors: locals initialised from a.entries / b.entries
     ab = {}
-    for i, d in defs.items():
-        if d[0] == "let" and binding_of_pat(d[2]) and binding_of_pat(d[2])[0] in ("a", "b") and show(d[1]["init"]).endswith(".entries"):
-            ab[binding_of_pat(d[2])[0]] = i
+    for i_, d in defs.items():
+        if d[0] == "let" and d[2].get("k") == "pbind" and "init" in d[1] and not d[1].get("inl_param"):
+            fpth = field_path(d[1]["init"])
+            if fpth and fpth[2] == ["entries"] and fpth[1] in (p_a, p_b):
+                ab["a" if fpth[1] == p_a else "b"] = i_
     if set(ab) != {"a", "b"}:
-        ctx.violation("R20.4", "apply_bin_op:shape", f["span"], "UNRECOGNISED: operand entry vectors a/b not found")
+        ctx.violation("R20.4", "apply_bin_op:shape", f["span"], "UNRECOGNISED: operand entry vectors (locals bound to a.entries / b.entries) not found")
         return
-    retains = [n for n in ix.nodes if n.get("k") == "mcall" and n["name"] == "retain" and local_id(n["recv"]) in ab.values()]
-    sides = sorted(k for k, v in ab.items() for r in retains if local_id(r["recv"]) == v)
-    okr = sides == ["a", "b"] and all("!common_guards.contains(&e.guard)" in show(r["args"][0]).replace(" ", "") for r in retains)
+
+    def side_of(e):
+        e = peel(e)
+        if e.get("k") == "local":
+            for k_, v_ in ab.items():
+                if canon(e["id"]) == canon(v_):
+                    return k_
+        return None
+    # fast path bookkeeping: both operands lose the entries whose guard is in the set of shared guards
+    retains = [n for n in ix.nodes if n.get("k") == "mcall" and n["name"] == "retain" and side_of(n["recv"])]
+    sides = sorted(side_of(r["recv"]) for r in retains)
+    shared = set()
+    okr = sides == ["a", "b"]
+    for r in retains:
+        cl = resolve(r["args"][0])
+        pb = pat_bindings(cl["params"][0]) if cl.get("k") == "closure" and cl.get("params") else []
+        body = resolve(cl.get("body", {}))
+        neg = False
+        while body.get("k") == "unary" and body["op"] == "!":
+            neg, body = not neg, resolve(body["e"])
+        good = False
+        if len(pb) == 1 and neg and body.get("k") == "mcall" and body["name"] == "contains" and peel(body["recv"]).get("k") == "local":
+            arg = field_path(body["args"][0])
+            good = bool(arg) and arg[1] == pb[0][1] and arg[2] == ["guard"]
+            shared.add(canon(peel(body["recv"])["id"]))
+        okr = okr and good
+    okr = okr and len(shared) == 1
     ctx.inst("R20.4", "apply_bin_op:fast-path-removes-from-both", okr, f["span"], "after the common-guard fast path the processed entries must be removed from BOTH operands (found retain on %s)" % sides, sample=sides)
-    # the fast path entry: value op(a_expr, b_expr) with both looked up by the same guard
-    fp_ok = anyshow(f["body"], "a.iter().find(|e|(e.guard==guard)).cloned().unwrap().value") and anyshow(f["body"], "b.iter().find(|e|(e.guard==guard)).cloned().unwrap().value") and anyshow(f["body"], "value:(op)(ec,a_expr,b_expr)")
+    # the fast path entry: for every shared guard g one entry {g, op(ec, a's value at g, b's value at g)}
+    ops = [n for n in ix.nodes if n.get("k") == "callv" and is_local(n["f"], p_op)]
+
+    def lookup(e, g_ids):
+        """the operand side when e is `<side>.iter().find(|e| e.guard == g)...value` (through lets / an inlined helper)"""
+        hits = []
+        done = set()
+        stack = [e]
+        seen_ = 0
+        while stack and seen_ < 40:
+            x = stack.pop()
+            seen_ += 1
+            x = resolve(x)
+            for y in walk(x):
+                if y.get("k") == "mcall" and y["name"] == "find":
+                    if id(y) in done:
+                        continue
+                    done.add(id(y))
+                    b_, ms_ = chain(y["recv"])
+                    src = side_of(b_) or side_of(resolve(b_))
+                    cl = resolve(y["args"][0])
+                    cmp_ok = False
+                    if cl.get("k") == "closure":
+                        for z in walk(cl["body"]):
+                            if z.get("k") == "binary" and z["op"] == "==":
+                                for l_, r_ in ((z["l"], z["r"]), (z["r"], z["l"])):
+                                    fl = field_path(l_)
+                                    if fl and fl[2] == ["guard"] and peel(r_).get("k") == "local" and canon(peel(r_)["id"]) in g_ids:
+                                        cmp_ok = True
+                    if src and cmp_ok:
+                        hits.append(src)
+                elif y.get("k") == "local" and y is not x:
+                    init = simple_let_init(defs, y["id"])
+                    if init is not None:
+                        stack.append(init)
+        return hits[0] if len(hits) == 1 else None
+    fp_ok = False
+    cross_op = None
+    for o in ops:
+        it = norm_.iter_context(ix, o)
+        if it is None or it["kind"] != "for":
+            continue
+        gb = pat_bindings(it["pat"])
+        # iteration over the (sorted) shared guards
+        srcb, srcms = chain(it["src"])
+        over_shared = False
+        cur = srcb
+        for _ in range(4):
+            cur = peel(cur)
+            if cur.get("k") == "local" and canon(cur["id"]) in shared:
+                over_shared = True
+                break
+            init = simple_let_init(defs, cur["id"]) if cur.get("k") == "local" else None
+            if init is None:
+                break
+            cur = chain(init)[0]
+        if len(gb) == 1 and over_shared and len(o["args"]) == 3:
+            g_ids = {canon(gb[0][1])} | {i_ for i_ in ALIASES if canon(i_) == canon(gb[0][1])}
+            fp_ok = lookup(o["args"][1], g_ids) == "a" and lookup(o["args"][2], g_ids) == "b"
+            # the entry carries that very guard
+            st = [x for x in ix.nodes if x.get("k") == "struct" and x["path"].endswith("::Entry") and contains(it["body"], x)]
+            fp_ok = fp_ok and len(st) == 1 and is_local({f_["name"]: f_["e"] for f_ in st[0]["fields"]}["guard"], gb[0][1]) \
+                and norm_.value_source(ix, defs, {f_["name"]: f_["e"] for f_ in st[0]["fields"]}["value"]) is o
+        else:
+            cross_op = o
     ctx.inst("R20.4", "apply_bin_op:fast-path-entry", fp_ok, f["span"], "a common guard must yield one entry {guard, op(a's value at guard, b's value at guard)} in that operand order")
-    # cross product: a top-level statement after the fast-path statement
-    cross = None
-    for n in ix.nodes:
-        if n.get("k") == "for" and is_local(chain(n["iter"])[0], ab["a"]):
-            inner = [x for x in walk(n["body"]) if x.get("k") == "for" and is_local(chain(x["iter"])[0], ab["b"])]
-            if inner:
-                cross = (n, inner[0])
-    okx = cross is not None
+    # cross product: every remaining (x, y) pair, guard = and(x.guard, y.guard), dropped only when unsatisfiable, value op(x.value, y.value)
+    okx = cross_op is not None
     why = "no nested loop over the remaining entries of a and b"
     if okx:
-        outer, inner = cross
-        anc_if = [a for a in ix.ancestors(outer) if a.get("k") == "if"]
-        fast_if = [n for n in ix.nodes if n.get("k") == "if" and any(r for r in retains if contains(n["then"], r))]
-        in_else = any("else" in fi and contains(fi["else"], outer) for fi in fast_if)
-        in_then = any(contains(fi["then"], outer) for fi in fast_if)
-        conds = [show(a["cond"]).replace(" ", "") for a in anc_if]
-        okx = not in_else and not in_then and all(c_ in ("!a.is_empty()", "!b.is_empty()", "(!a.is_empty()&&!b.is_empty())") for c_ in conds) and (not fast_if or ix.precedes(fast_if[0], outer))
-        why = "cross product guarded by %s%s" % (conds, " and placed in the else-branch of the fast path" if in_else else "")
+        inner = norm_.iter_context(ix, cross_op)
+        outer = norm_.iter_context(ix, inner["node"]) if inner else None
+        okx = inner is not None and outer is not None and inner["kind"] == "for" and outer["kind"] == "for"
+        if okx:
+            so, si = side_of(chain(outer["src"])[0]), side_of(chain(inner["src"])[0])
+            okx = {so, si} == {"a", "b"} and not D.source(outer["src"])[1] and not D.source(inner["src"])[1]
+            why = "the nested loops run over %s and %s" % (so, si)
+        if okx:
+            xb, yb = pat_bindings(outer["pat"]), pat_bindings(inner["pat"])
+            elem = {so: xb[0][1] if len(xb) == 1 else None, si: yb[0][1] if len(yb) == 1 else None}
+            # placement: reached whenever entries remain - not inside either branch of the fast path, guarded at most by non-emptiness tests
+            fast_if = [n for n in ix.nodes if n.get("k") == "if" and any(contains(n["then"], r) for r in retains)]
+            in_fast = any(contains(fi["then"], outer["node"]) or ("else" in fi and contains(fi["else"], outer["node"])) for fi in fast_if)
+            conds = norm_.path_conditions(ix, outer["node"])
+            only_empty_tests = all(c_.get("k") == "mcall" and c_["name"] == "is_empty" and side_of(c_["recv"]) and not pol for c_, pol in conds)
+            okx = not in_fast and only_empty_tests and (not fast_if or ix.precedes(fast_if[0], outer["node"]))
+            why = "cross product guarded by %s%s" % ([("" if p_ else "!") + show(c_)[:30] for c_, p_ in conds], " and placed inside the fast-path branch" if in_fast else "")
         if okx:
             ands = [x for x in walk(inner["body"]) if x.get("k") == "mcall" and callee(x) == V + "GuardCtx::and"]
-            okx = len(ands) == 1 and sorted(show(a).replace(" ", "") for a in ands[0]["args"]) == ["a_entry.guard", "b_entry.guard"]
+            okg = len(ands) == 1
+            if okg:
+                got = set()
+                for a_ in ands[0]["args"]:
+                    fl = field_path(a_)
+                    for k_, v_ in elem.items():
+                        if fl and fl[2] == ["guard"] and v_ is not None and canon(fl[1]) == canon(v_):
+                            got.add(k_)
+                okg = got == {"a", "b"}
             why = "cross-product guard is %s" % (show(ands[0])[:80] if ands else "?")
+            # pushed unless unsatisfiable
             pushes = [x for x in walk(inner["body"]) if x.get("k") == "mcall" and x["name"] == "push"]
-            ifs = [a for a in Index(inner["body"]).ancestors(pushes[0]) if a.get("k") == "if"] if len(pushes) == 1 else [None]
-            okx = okx and len(pushes) == 1 and len(ifs) == 1 and show(ifs[0]["cond"]).replace(" ", "") == "!gc.is_false(guard)" and anyshow(inner["body"], "value:(op)(ec,a_entry.value.clone(),b_entry.value.clone())")
+            okp = len(pushes) == 1
+            if okp and okg:
+                gv = None
+                conds = norm_.path_conditions(ix, pushes[0], upto=inner["node"])
+                okp = len(conds) == 1 and conds[0][1] is False and conds[0][0].get("k") == "mcall" and conds[0][0]["name"] == "is_false" and norm_.value_source(ix, defs, conds[0][0]["args"][0]) is ands[0]
+                st = resolve(pushes[0]["args"][0])
+                fs = {f_["name"]: f_["e"] for f_ in st.get("fields", [])} if st.get("k") == "struct" else {}
+                okp = okp and "guard" in fs and norm_.value_source(ix, defs, fs["guard"]) is ands[0] and norm_.value_source(ix, defs, fs.get("value", {})) is cross_op
+                # op(ec, a's value, b's value) in operand order
+                vals = []
+                for a_ in cross_op["args"][1:]:
+                    b_, ms_ = chain(a_)
+                    fl = field_path(b_)
+                    vals.append(next((k_ for k_, v_ in elem.items() if fl and fl[2] == ["value"] and v_ is not None and canon(fl[1]) == canon(v_)), None))
+                okp = okp and vals == ["a", "b"]
+            okx = okg and okp
             if not okx:
                 why += "; entries must be pushed for every pair unless the guard is unsatisfiable, with value op(a, b)"
-    ctx.inst("R20.4", "apply_bin_op:cross-product", okx, cross[0]["sp"] if cross else f["span"], "the remaining entries must always be combined pairwise: %s" % why, sample=why)
+    ctx.inst("R20.4", "apply_bin_op:cross-product", okx, cross_op["sp"] if cross_op else f["span"], "the remaining entries must always be combined pairwise: %s" % why, sample=why)
 
 
 def coalesce(ctx):
     f = ctx.fn("patronus_dse", V + "coalesce_entries")
     ix = Index(f["body"])
     defs = local_defs(f)
+    p_entries = (param_ids(f) + [None])[0]
     ors = [n for n in ix.nodes if n.get("k") == "mcall" and callee(n) == V + "GuardCtx::or"]
     ok = len(ors) == 1
     why = "expected one GuardCtx::or"
     if ok:
-        srcs = []
+        # both operands are guards of entries of the list, read in this iteration: entries[i].guard or (entries[i].clone()).guard
+        idx = []
         for a in ors[0]["args"]:
-            fp = field_path(a)
-            if not fp or fp[2] != ["guard"]:
-                ok = False
-                break
-            init = simple_let_init(defs, fp[1])
-            srcs.append(show(strip_try(init)).replace(" ", "") if init is not None else "?")
-        why = "merged guard is or(%s)" % ", ".join(srcs)
-        ok = ok and sorted(srcs) == sorted(["entries[prev_ii].clone()", "entries[ii].clone()"])
+            fl = None
+            e = peel(a)
+            if e.get("k") == "field" and e["name"] == "guard":
+                src = norm_.value_source(ix, defs, e["e"])
+                b_, ms_ = chain(src)
+                b_ = peel(b_)
+                if b_.get("k") == "index" and is_local(b_["e"], p_entries) and all(m_[0] in ("clone",) for m_ in ms_) and peel(b_["i"]).get("k") == "local":
+                    # the read must happen inside the loop (the current guard), not before it
+                    loop = ix.enclosing(ors[0], ("for", "while", "loop"))
+                    if loop is not None and contains(loop, b_):
+                        fl = canon(peel(b_["i"])["id"])
+            idx.append(fl)
+        why = "merged guard is or(%s)" % ", ".join("entries[#%s].guard" % x if x else "?" for x in idx)
+        ok = None not in idx and len(set(idx)) == 2
         if ok:
-            # both reads happen at merge time: in the same iteration, after the map lookup
-            stores = [n for n in ix.nodes if n.get("k") == "assign" and show(n["l"]).replace(" ", "") == "entries[ii].guard"]
-            ok = len(stores) == 1 and show(stores[0]["r"]) == "combined_guard" and ix.precedes(ors[0], stores[0])
-            dl = [n for n in ix.nodes if n.get("k") == "mcall" and n["name"] == "push" and show(n["recv"]) == "delete_list"]
-            ok = ok and len(dl) == 1 and show(dl[0]["args"][0]) == "prev_ii" and ix.regions[id(dl[0])] == ix.regions[id(ors[0])]
+            # the result is stored in one of the two entries (the later one), the other (earlier) index is scheduled for deletion,
+            # and the map from values to indices remembers the later index
+            stores = [n for n in ix.nodes if n.get("k") == "assign" and field_path(n["l"]) is None and peel(n["l"]).get("k") == "field" and peel(n["l"])["name"] == "guard"
+                      and peel(peel(n["l"])["e"]).get("k") == "index" and is_local(peel(peel(n["l"])["e"])["e"], p_entries)]
+            ok = len(stores) == 1 and norm_.value_source(ix, defs, stores[0]["r"]) is ors[0]
+            later = canon(local_id(peel(peel(stores[0]["l"])["e"])["i"])) if ok and local_id(peel(peel(stores[0]["l"])["e"])["i"]) is not None else None
+            ok = ok and later in idx
+            earlier = [x for x in idx if x != later][0] if ok else None
+            dl = [n for n in ix.nodes if n.get("k") == "mcall" and n["name"] == "push" and len(n["args"]) == 1 and earlier is not None and is_local(n["args"][0], earlier)]
+            ok = ok and len(dl) == 1 and ix.regions[id(dl[0])] == ix.regions[id(stores[0])]
             why += "; stored in the later entry, earlier entry scheduled for deletion" if ok else "; store/deletion bookkeeping does not match"
-            ins = [n for n in ix.nodes if n.get("k") == "mcall" and n["name"] == "insert" and show(n["recv"]) == "by_value"]
-            ok = ok and len(ins) == 1 and show(ins[0]["args"][1]) == "ii" and len(ix.regions[id(ins[0])]) == len(ix.regions[id(ix.enclosing(ins[0], ("for",)))]) + 1
+            ins = [n for n in ix.nodes if n.get("k") == "mcall" and n["name"] == "insert" and len(n["args"]) == 2 and "HashMap" in (n.get("path") or "") and later is not None and is_local(n["args"][1], later)]
+            loop = ix.enclosing(ors[0], ("for", "while", "loop"))
+            ok = ok and len(ins) == 1 and loop is not None and len(ix.regions[id(ins[0])]) == len(ix.regions[id(loop)]) + 1
+            # the earlier index comes from the map (the previous entry with the same value)
+            if ok:
+                d = defs.get(earlier)
+                src = None
+                if d and d[0] in ("letexpr", "arm", "let"):
+                    src = d[1].get("init") if d[0] != "arm" else d[1]["scrut"]
+                sb, sms = chain(norm_.value_source(ix, defs, src)) if src is not None else ({}, [])
+                ok = [m_[0] for m_ in sms][:1] in (["get"], ["insert"]) and "HashMap" in (sms[0][2].get("path") or "")
     ctx.inst("R20.5", "coalesce_entries:merge", ok, f["span"], "coalescing must OR the earlier entry's CURRENT guard (read from entries[prev] when merging) with the later entry's guard, store it in the later entry, delete the earlier one and remember the later index: %s" % why, sample=why)
 
 
@@ -329,24 +558,56 @@ def traversal(ctx):
         f = ctx.fn("patronus", "patronus::expr::traversal::" + name)
         ix = Index(f["body"])
         defs = local_defs(f)
-        # the slice handed to f and the truncate use one local count
-        sl = [n for n in ix.nodes if n.get("k") == "index" and "stack" in show(n["e"]) and "RangeFrom" in show(n["i"])]
-        tr = [n for n in ix.nodes if n.get("k") == "mcall" and n["name"] == "truncate" and "stack" in show(n["recv"])]
-        ok = len(sl) == 1 and len(tr) == 1
-        why = "expected one stack slice and one truncate"
+        # roles: the work list is the vector popped by the loop, the value stack receives the visitor's result,
+        # the children vector is the one handed to get_children
+        pids = param_ids(f) + [None] * 4           # (ctx, expr, get_children, f)
+        p_get, p_visit = pids[2], pids[3]
+        loops = [n for n in ix.nodes if n.get("k") == "while" and peel(n["cond"]).get("k") == "letexpr" and [m_[0] for m_ in chain(peel(n["cond"])["init"])[1]] == ["pop"]]
+        visits = [n for n in ix.nodes if n.get("k") == "callv" and is_local(n["f"], p_visit)]
+        gets = [n for n in ix.nodes if n.get("k") == "callv" and is_local(n["f"], p_get)]
+        ok = len(loops) == 1 and len(visits) == 1 and len(gets) == 1
+        why = "UNRECOGNISED: expected one work-list loop, one visitor call and one get_children call"
         if ok:
-            cnt = [x for x in walk(sl[0]["i"]) if x.get("k") == "local" and x["name"] != "stack"]
-            cnt2 = [x for x in walk(tr[0]["args"][0]) if x.get("k") == "local" and x["name"] != "stack"]
-            ok = len(cnt) == 1 and len(cnt2) == 1 and cnt[0]["id"] == cnt2[0]["id"]
-            why = "slice and truncate use different counts"
+            loop = loops[0]
+            todo_id = local_id(chain(peel(loop["cond"])["init"])[0])
+            popped = [i for _, i in pat_bindings(peel(loop["cond"])["pat"])]
+            # the slice handed to the visitor
+            sl = resolve(visits[0]["args"][2])
+            stack_id = local_id(sl["e"]) if sl.get("k") == "index" else None
+            rng = peel(sl["i"]) if sl.get("k") == "index" else {}
+            start = {f_["name"]: f_["e"] for f_ in rng.get("fields", [])}.get("start") if rng.get("k") == "struct" and rng["path"].endswith("RangeFrom") else None
+            tr = [n for n in ix.nodes if n.get("k") == "mcall" and n["name"] == "truncate" and stack_id is not None and is_local(n["recv"], stack_id)]
+            res_push = [n for n in ix.nodes if n.get("k") == "mcall" and n["name"] == "push" and stack_id is not None and is_local(n["recv"], stack_id) and norm_.value_source(ix, defs, n["args"][0]) is visits[0]]
+            ok = stack_id is not None and start is not None and len(tr) == 1 and len(res_push) == 1
+            why = "UNRECOGNISED: expected the visitor to receive `&stack[stack.len() - n..]`, then stack.truncate(..) and stack.push(result)"
             if ok:
-                init = simple_let_init(defs, cnt[0]["id"])
-                static = init is not None and any(x.get("k") == "mcall" and x["name"] == "num_children" for x in walk(init))
-                # provenance: derives from the popped todo entry's recorded count
-                loop = ix.enclosing(sl[0], ("while",))
-                popped = [i for _, i in pat_bindings(peel(loop["cond"])["pat"])] if loop is not None and peel(loop["cond"]).get("k") == "letexpr" else []
-                from_entry = init is not None and any(x.get("k") == "local" and x["id"] in popped for x in walk(init))
-                pushes = [n for n in ix.nodes if n.get("k") == "mcall" and n["name"] == "push" and "todo" in show(n["recv"]) and "child_vec.len()" in show(n["args"][0]).replace(" ", "")]
-                ok = (not static) and from_entry and len(pushes) == 1
-                why = "the number of values taken is `%s`%s" % (show(init)[:60] if init is not None else "?", " (the node's static child count, although get_children may have returned fewer)" if static else "")
+                def minus_count(e):
+                    """the local N when e is `stack.len() - N` (through lets)"""
+                    e = resolve(e)
+                    if e.get("k") == "binary" and e["op"] == "-":
+                        lb, lms = chain(resolve(e["l"]))
+                        if [m_[0] for m_ in lms] == ["len"] and is_local(lb, stack_id) and peel(e["r"]).get("k") == "local":
+                            return canon(peel(e["r"])["id"])
+                    return None
+                c1, c2 = minus_count(start), minus_count(tr[0]["args"][0])
+                ok = c1 is not None and c1 == c2
+                why = "slice and truncate use different counts"
+                if ok:
+                    init = simple_let_init(defs, c1)
+                    static = init is not None and any(x.get("k") == "mcall" and x["name"] == "num_children" for x in walk(init))
+                    # provenance: derives from the popped work-list entry's recorded count
+                    from_entry = init is not None and any(x.get("k") == "local" and (x["id"] in popped or canon(x["id"]) in [canon(p_) for p_ in popped]) for x in walk(init))
+                    # the count recorded with a re-scheduled node is the number of children get_children returned
+                    child_vec = local_id(gets[0]["args"][2])
+                    rec = []
+                    for n in ix.nodes:
+                        if n.get("k") == "mcall" and n["name"] == "push" and is_local(n["recv"], todo_id):
+                            t = peel(n["args"][0])
+                            if t.get("k") == "tuple" and len(t["es"]) == 2:
+                                c_ = resolve(t["es"][1])
+                                if c_.get("k") == "ctor" and callee(c_).endswith("Option::Some"):
+                                    cb, cms = chain(resolve(c_["args"][0]))
+                                    rec.append([m_[0] for m_ in cms] == ["len"] and child_vec is not None and is_local(cb, child_vec))
+                    ok = (not static) and from_entry and rec == [True]
+                    why = "the number of values taken is `%s`%s" % (show(init)[:60] if init is not None else "?", " (the node's static child count, although get_children may have returned fewer)" if static else "")
         ctx.inst("R20.6", "%s:values-of-visited-children-only" % name, ok, f["span"], "%s: %s - for a node whose children were (partly) not visited the values of other nodes are consumed or the stack index underflows" % (name, why), sample=why)
